@@ -151,11 +151,8 @@ impl Style {
     /// Unlike [`Reset::render`][crate::Reset::render], this will elide the code if there is nothing to reset.
     #[inline]
     pub fn render_reset(self) -> impl core::fmt::Display + Copy {
-        if self != Self::new() {
-            RESET
-        } else {
-            ""
-        }
+        // Not a bare `&str`: its `Display` pads and truncates
+        crate::color::NullFormatter(if self != Self::new() { RESET } else { "" })
     }
 
     /// Write the relevant [`Reset`][crate::Reset] code
